@@ -1458,6 +1458,113 @@ def rule_diagnosed_failures(prog, fixture=False):
     return r
 
 
+# ---------------------------------------------------------------- R-C07-14
+def rule_rewind_changes_state(prog, fixture=False):
+    r = RuleResult("R-C07-14", "termination of the track decoders: inside `while (cursor < limit)` the cursor is moved "
+                   "back to a saved position only together with a change of the decoder state - a pass that rewinds "
+                   "and keeps its state finds the same mark again and never ends", floor=0 if fixture else 2)
+    for fn in prog.functions.values():
+        # cursors: locals that receive `<scan result>.first + 1`
+        cursors = {}
+        for n in fn.walk():
+            if n.get("k") == "BinaryOperator" and n.get("op") == "=":
+                t = strip_all(n["c"][0])
+                if t is not None and t.get("k") == "DeclRefExpr" and t.get("dk") == "Var" and \
+                        any(x.get("k") == "MemberExpr" and x.get("n") == "first" for x in walk(n["c"][1])):
+                    cursors[t["d"]] = t
+        for lp in fn.walk():
+            if lp.get("k") not in ("WhileStmt", "ForStmt", "DoStmt") or "body" not in lp.get("parts", {}):
+                continue
+            if any(a.get("k") in ("WhileStmt", "ForStmt", "DoStmt") for a in fn.ancestors(lp)):
+                continue
+            body = lp["c"][lp["parts"]["body"]]
+            rewinds = []
+            cur = None
+            for n in walk(body):
+                if n.get("k") == "BinaryOperator" and n.get("op") == "=" and (strip_all(n["c"][0]) or {}).get("d") in cursors:
+                    rhs = strip_all(n["c"][1])
+                    if rhs is not None and rhs.get("k") == "DeclRefExpr" and rhs.get("dk") == "Var" and \
+                            rhs.get("d") != (strip_all(n["c"][0]) or {}).get("d"):
+                        # `cursor = limit` (give up: the loop ends) is not a rewind
+                        cond0 = strip_all(lp["c"][lp["parts"]["cond"]]) if "cond" in lp["parts"] else None
+                        if cond0 is not None and any(x.get("k") == "DeclRefExpr" and x.get("d") == rhs.get("d") for x in walk(cond0)):
+                            continue
+                        rewinds.append(n)
+                        cur = cursors[(strip_all(n["c"][0]) or {}).get("d")]
+            if not rewinds or "cond" not in lp["parts"]:
+                continue
+            # the state variable: an enum-typed local assigned in the body and tested by a switch or ==
+            svars = {}
+            for n in walk(body):
+                if n.get("k") == "BinaryOperator" and n.get("op") == "=":
+                    t = strip_all(n["c"][0])
+                    if t is not None and t.get("k") == "DeclRefExpr" and t.get("dk") == "Var" and folded(n["c"][1]) is not None and \
+                            ("enum" in (t.get("ct") or "") or "State" in (t.get("t") or "")):
+                        svars[t["d"]] = t.get("n")
+            if len(svars) != 1:
+                r.undecided.append("%s: cannot identify the decoder state variable of this loop" % fn.loc(lp))
+                continue
+            (sd, sname), = svars.items()
+
+            def region_state(node):
+                for a in fn.ancestors(node):
+                    if a is lp:
+                        break
+                    if a.get("k") == "CaseStmt" and a.get("v") is not None:
+                        return a.get("v")
+                    if a.get("k") == "IfStmt":
+                        c_ = a["c"][a["parts"]["cond"]]
+                        then = a["c"][a["parts"]["then"]]
+                        if any(x is node for x in walk(then)):
+                            for f in flow.atomise(c_, True):
+                                if f[0] == "C" and f[2] == "==" and (strip_all(f[1]) or {}).get("d") == sd and folded(f[3]) is not None:
+                                    return folded(f[3])
+                return None
+            # in a switch the case labels do not enclose later statements of the same case: use the nearest
+            # preceding case label in the switch body instead
+            def region_state2(node):
+                v = region_state(node)
+                if v is not None:
+                    return v
+                for a in fn.ancestors(node):
+                    if a.get("k") == "SwitchStmt":
+                        sb = a["c"][-1]
+                        last = None
+                        for st in sb.get("c", []):
+                            x = st
+                            while x is not None and x.get("k") in ("CaseStmt", "DefaultStmt"):
+                                if x.get("k") == "CaseStmt":
+                                    last = x.get("v")
+                                x = x["c"][-1] if x.get("c") else None
+                            if any(y is node for y in walk(st)):
+                                return last
+                return None
+            ids = {id(x): x for x in rewinds}
+
+            def step(st, x):
+                if id(x) in ids:
+                    return {("pending", region_state2(x), fn.loc(x))}
+                if st != "ok" and x.get("k") == "BinaryOperator" and x.get("op") == "=" and (strip_all(x["c"][0]) or {}).get("d") == sd:
+                    v = folded(x["c"][1])
+                    if v is not None and (st[1] is None or v != st[1]):
+                        return {"ok"}
+                # (a later scan from the rewound position does not count as progress: it finds the same mark)
+                return {st}
+            inn, at = flow.may_states(fn, {"ok"}, step)
+            condnode = lp["c"][lp["parts"]["cond"]]
+            sts = at(condnode)
+            key = "%s::%s::rewind of %s" % (fn.relfile(), fn.qn, cur.get("n"))
+            if sts is None:
+                r.undecided.append("%s: loop condition not in the CFG" % fn.loc(lp))
+                continue
+            bad = sorted(x for x in sts if x != "ok")
+            r.add(key, bad[0][2] if bad else fn.loc(rewinds[0]), not bad,
+                  "%d rewind(s), each followed by a state change before the next pass" % len(rewinds) if not bad else
+                  "`%s` is set back to a saved position and the next pass starts in the same state (`%s` unchanged): the same "
+                  "mark is found again and the loop never ends on such a track" % (cur.get("n"), sname))
+    return r
+
+
 def run(ctx):
     from . import c06, c10
     prog = ctx.prog("dfs", "N")
@@ -1465,7 +1572,8 @@ def run(ctx):
             rule_reading_loops(prog), rule_alloc_taint(prog), rule_optional_access(prog), rule_divisors(prog),
             rule_diagnosed_failures(prog), rule_nonempty_access(prog),
             c06.rule_track_checks_unconditional(prog, rule_id="R-C07-11"),
-            c10.rule_counters_after_reset(prog, rule_id="R-C07-12"), rule_side_effect_results(prog)]
+            c10.rule_counters_after_reset(prog, rule_id="R-C07-12"), rule_side_effect_results(prog),
+            rule_rewind_changes_state(prog)]
 
 
 SELFTESTS = [
